@@ -46,6 +46,22 @@ fn run_line(line: &str) -> String {
             return "BADCASE".into();
         }
     }
+    if toks[0] == "REPEAT" && toks.len() > 2 {
+        // REPEAT <n> <cmd> ..: the same command n times in a row on this thread (state that builds up over MANY calls: counters, epochs,
+        // high-water marks); every answer must be the first answer
+        let n: usize = match toks[1].parse() {
+            Ok(n) if n >= 1 => n,
+            _ => return "BADCASE".into(),
+        };
+        let first = run_tokens(&toks[2..]);
+        for k in 1..n {
+            let again = run_tokens(&toks[2..]);
+            if again != first {
+                return format!("{} DIFF@{} {}", first, k + 1, again);
+            }
+        }
+        return format!("{} SAME", first);
+    }
     if toks[0] == "PAIR" {
         // several commands on one line, executed one after the other by this thread (state that survives between calls is shared)
         let outs: Vec<String> = toks[1..].split(|t| *t == "||").map(run_tokens).collect();
